@@ -18,6 +18,7 @@ import z3
 
 from . import source
 from .values import (
+    ExtObj,
     BAObj,
     Bound,
     Builtin,
@@ -710,7 +711,9 @@ class Path:
         c = self.truth(self.eval(s.test))
         if self.spec_mode or self.cfg.asserts_are_obligations(self):
             # in ghost/lemma code an assert is a proof obligation
-            self.oblige(self.cfg.obl_name(self, 'assert', f'L{s.lineno}'), 'assert', c)
+            # `assert cond, 'label'` in ghost/lemma code names the obligation (stable across edits of the sidecar)
+            label = s.msg.value if isinstance(s.msg, ast.Constant) and isinstance(s.msg.value, str) else f'L{s.lineno}'
+            self.oblige(self.cfg.obl_name(self, 'assert', label), 'assert', c)
             return
         if not self.branch(c):
             raise PyExc(AssertionError())
@@ -918,6 +921,7 @@ class Path:
 
     # -- loops ---------------------------------------------------------------
     def loop_label(self, node):
+        node = getattr(node, '_orig_loop', node)
         f = self.func_stack[-1]
         labels = getattr(f, '_loop_labels', None)
         if labels is None:
@@ -980,6 +984,8 @@ class Path:
             if step:
                 step()
             spec.check_inv(self, 'inv-preserved')
+            if getattr(spec, 'mods', None) is not None:
+                spec.check_loop_frame(self)
             if v0 is not None:
                 v1 = spec.variant(self)
                 self.oblige(spec.name('variant-decreases'), 'variant', self.compare_op(ast.Lt(), v1, v0))
@@ -990,6 +996,10 @@ class Path:
     def st_For(self, s):
         if s.orelse:
             raise Unsupported('for/else')
+        if isinstance(s.iter, ast.GeneratorExp):
+            lazy = self.lazy_genexp_for(s)
+            if lazy is not None:
+                return self.st_For(lazy)
         it = self.eval(s.iter)
         items = self.concrete_iter(it)
         if items is not None:
@@ -1003,8 +1013,15 @@ class Path:
                     continue
             return
         spec = self.cfg.loop_spec(self, self.func_stack[-1], self.loop_label(s))
+        if isinstance(it, Ref) and isinstance(self.obj(it), ExtObj):
+            return self.obj(it).ext_for(self, it, s, spec)
         if spec is None:
             raise Unsupported(f'for loop over symbolic iterable without invariant at {self.cur_loc}')
+        if isinstance(it, Unknown) and self.skeleton:
+            # skeleton profile: an uninterpreted iterable yields any number of uninterpreted items
+            self.abstraction_used = True
+            self.cut_loop(s, spec, lambda: Unknown('iter'), lambda: self.assign(s.target, Unknown('item')), ())
+            return
         fr = self.scope[0]
         if isinstance(it, SymRange):
             itname = self.loop_counter_name('_it')
@@ -1039,6 +1056,23 @@ class Path:
 
             self.cut_loop_named(itname, s, spec, test, pre_body, (itname,), stepf)
             return
+        if isinstance(it, SymZip):
+            # zip of symbolic sequences: position _i runs over 0 .. min(len) - 1, the target is the tuple of the _i-th elements
+            itname = self.loop_counter_name('_i')
+            self.store_name(itname, 0)
+            lens = [self.length(q) for q in it.seqs]
+
+            def test():
+                return self.bool_and([self.compare_op(ast.Lt(), self.lookup(itname), ln) for ln in lens])
+
+            def pre_body():
+                self.assign(s.target, tuple(self.subscript(q, self.lookup(itname)) for q in it.seqs))
+
+            def stepf():
+                self.store_name(itname, self.binop(ast.Add(), self.lookup(itname), 1))
+
+            self.cut_loop_named(itname, s, spec, test, pre_body, (itname,), stepf)
+            return
         raise Unsupported(f'for over {it!r}')
 
     def loop_counter_name(self, base):
@@ -1061,6 +1095,47 @@ class Path:
             active.remove(itname)
 
     st_AsyncFor = st_For
+
+    def lazy_genexp_for(self, s):
+        """`for T in (elt for x in xs if c1 if c2)`: a generator expression is *lazy* -- its conditions and
+        element expression run interleaved with the loop body (they may await, raise, and read variables the
+        body assigns).  The statement is executed as the equivalent
+            for x' in xs:  if not c1': continue;  if not c2': continue;  T = elt';  body
+        where x' is the comprehension variable renamed apart (it is local to the generator's own scope).
+        Returns the synthetic For node (cached; it carries the loop label of the original statement), or None
+        when the shape is not handled (several `for` clauses, nested scopes rebinding names): the caller then
+        falls back to evaluating the generator expression as a value."""
+        cached = getattr(s, '_lazy_for', False)
+        if cached is not False:
+            return cached
+        ge = s.iter
+        out = None
+        if len(ge.generators) == 1 and not any(isinstance(x, (ast.Lambda, ast.ListComp, ast.SetComp, ast.DictComp, ast.GeneratorExp, ast.NamedExpr)) for c in [ge.elt] + list(ge.generators[0].ifs) for x in ast.walk(c)):
+            g = ge.generators[0]
+            bound = {x.id for x in ast.walk(g.target) if isinstance(x, ast.Name)}
+            ren = {n: f'_ge{s.lineno}_{n}' for n in bound}
+
+            class _Ren(ast.NodeTransformer):
+                def visit_Name(self, n):
+                    if n.id in ren:
+                        return ast.copy_location(ast.Name(ren[n.id], n.ctx), n)
+                    return n
+
+            import copy as _copy
+
+            def rn(n):
+                return ast.fix_missing_locations(_Ren().visit(_copy.deepcopy(n)))
+
+            body = []
+            for c in g.ifs:
+                body.append(ast.copy_location(ast.If(ast.UnaryOp(ast.Not(), rn(c)), [ast.copy_location(ast.Continue(), c)], []), c))
+            body.append(ast.copy_location(ast.Assign([s.target], rn(ge.elt)), s))
+            body.extend(s.body)
+            out = ast.copy_location(type(s)(rn(g.target), g.iter, body, [], None), s)
+            ast.fix_missing_locations(out)
+            out._orig_loop = s
+        s._lazy_for = out
+        return out
 
     def is_pos(self, v):
         if isinstance(v, int):
@@ -1189,12 +1264,24 @@ class Path:
 
     def ev_JoinedStr(self, n):
         # f-strings only feed log lines / exception messages
+        # (contract kwarg fstrings='eval': a replacement field without conversion/format spec whose value
+        # is a concrete str/int is formatted exactly -- needed where a name is computed for getattr dispatch)
+        evaluate = getattr(getattr(self.cfg, 'top', None), 'extra', {}).get('fstrings') == 'eval'
         parts = []
+        opaque = False
         for v in n.values:
             if isinstance(v, ast.Constant):
                 parts.append(v.value)
+            elif evaluate:
+                x = self.eval(v.value)
+                if v.conversion == -1 and v.format_spec is None and type(x) in (str, int):
+                    parts.append(str(x))
+                else:
+                    opaque = True
             else:
                 return OpaqueStr()
+        if opaque:
+            return OpaqueStr()
         return ''.join(parts)
 
     def ev_Attribute(self, n):
@@ -1691,6 +1778,8 @@ class Path:
                 return len(o.items) > 0
             if isinstance(o, MObj):
                 raise Unsupported('truth of symbolic map')
+            if isinstance(o, ExtObj):
+                return o.ext_truth(self, v)
             if isinstance(o, Obj):
                 from . import models
 
@@ -1718,9 +1807,13 @@ class Path:
             if isinstance(o, BAObj):
                 return self.length(o.val)
             if isinstance(o, LObj):
+                if o.flavor == 'set' and o.items:
+                    raise Unsupported('len of a set with symbolic members')
                 return len(o.items) if o.items is not None else self.length(o.sym)
             if isinstance(o, DObj):
                 return len(o.items)
+            if isinstance(o, ExtObj):
+                return o.ext_len(self, v)
             if isinstance(o, Obj):
                 from . import models
 
@@ -1787,6 +1880,13 @@ class SliceV:
 class SymRange:
     def __init__(self, start, stop, step):
         self.start, self.stop, self.step = start, stop, step
+
+
+class SymZip:
+    """zip(...) of symbolic sequences; consumed by st_For only"""
+
+    def __init__(self, seqs):
+        self.seqs = seqs
 
 
 class ConcIter:
